@@ -8,6 +8,7 @@ import (
 	"bytes"
 	"encoding/json"
 	"fmt"
+	"math"
 	"net"
 	"reflect"
 	"regexp"
@@ -309,6 +310,67 @@ func (n *dnode) find(p string) *dnode {
 
 // ---------------------------------------------------------------- scalars
 
+// jqEsc quotes s like jq and then, for about half of the tokens, spells some
+// of its characters with escape sequences that JSON and Cue string syntax share:
+// \uXXXX (non-ASCII only, every third character, or all characters) and \/ for
+// a slash.  The decoded string is the same.
+func jqEsc(s string, pk pick) string {
+	mode := pk("string_escapes", 6) // 0-2 none, 3 non-ASCII, 4 some, 5 all
+	if mode < 3 {
+		return jq(s)
+	}
+	var b strings.Builder
+	b.WriteByte('"')
+	i := 0
+	for _, r := range s {
+		esc := false
+		switch mode {
+		case 3:
+			esc = r > 0x7e
+		case 4:
+			esc = r > 0x7e || i%3 == 1
+		case 5:
+			esc = true
+		}
+		switch {
+		case r > 0xffff || r < 0x20 || r == '"' || r == '\\':
+			// outside this helper's business: let the standard quoting do it
+			q := jq(string(r))
+			b.WriteString(q[1 : len(q)-1])
+		case esc && r == '/' && i%2 == 0:
+			b.WriteString(`\/`)
+		case esc:
+			fmt.Fprintf(&b, `\u%04x`, r)
+		default:
+			b.WriteRune(r)
+		}
+		i++
+	}
+	b.WriteByte('"')
+	return b.String()
+}
+
+// durText spells a duration as text: time.Duration.String(), or split into
+// microseconds and nanoseconds with one of the three spellings of the
+// microsecond unit that time.ParseDuration accepts ("250µs" with U+00B5,
+// "250μs" with U+03BC, "250us").
+func durText(d time.Duration, pk pick) string {
+	style := pk("duration_text", 5) // 0-1 String(), 2 U+00B5, 3 U+03BC, 4 us
+	if style < 2 || d == math.MinInt64 {
+		return d.String()
+	}
+	unit := []string{"\u00b5s", "\u03bcs", "us"}[style-2]
+	sign, u := "", uint64(d)
+	if d < 0 {
+		sign, u = "-", uint64(-d)
+	}
+	out := sign + strconv.FormatUint(u/1000, 10) + unit
+	if r := u % 1000; r != 0 {
+		out += strconv.FormatUint(r, 10) + "ns"
+	}
+	return out
+}
+
 func jq(s string) string {
 	var b bytes.Buffer
 	e := json.NewEncoder(&b)
@@ -347,7 +409,7 @@ func floatTok(v any, pk pick, needDot bool) string {
 
 var (
 	plainWordRE = regexp.MustCompile(`^[A-Za-z][A-Za-z0-9_]*$`)
-	plainDurRE  = regexp.MustCompile(`^-?[0-9][0-9a-zµ.]*$`)
+	plainDurRE  = regexp.MustCompile(`^-?[0-9][0-9a-zµμ.]*$`)
 	bareKeyRE   = regexp.MustCompile(`^[A-Za-z0-9_-]+$`)
 )
 
@@ -376,13 +438,15 @@ func jsonScalar(v any, pk pick) string {
 	case bool:
 		return strconv.FormatBool(x)
 	case string:
-		return jq(x)
+		return jqEsc(x, pk)
 	case time.Duration:
 		if pk("json_dur_int", 2) == 1 {
 			return strconv.FormatInt(int64(x), 10)
 		}
-		return jq(x.String())
+		return jqEsc(durText(x, pk), pk)
 	case time.Time:
+		// not escaped: time.Time.UnmarshalJSON of the standard library takes
+		// the bytes between the quotes as they are (go.dev/issue/47353)
 		return jq(x.Format(time.RFC3339))
 	}
 	panic(fmt.Sprintf("jsonScalar %T", v))
@@ -414,7 +478,7 @@ func writeJSON(b *strings.Builder, n *dnode, pretty bool, depth int, pk pick) {
 			} else if i > 0 {
 				b.WriteString(" ")
 			}
-			b.WriteString(jq(k.key) + ": ")
+			b.WriteString(jqEsc(k.key, pk) + ": ")
 			writeJSON(b, k, pretty, depth+1, pk)
 		}
 		if pretty && len(n.kids) > 0 {
@@ -481,7 +545,7 @@ func (st *yamlStyle) scalar(v any) string {
 	case string:
 		return st.str(x)
 	case time.Duration:
-		s := x.String()
+		s := durText(x, st.pk)
 		if st.strq == 2 && plainDurRE.MatchString(s) {
 			return s
 		}
@@ -602,7 +666,7 @@ func (st *tomlStyle) scalar(v any) string {
 	case string:
 		return st.str(x)
 	case time.Duration:
-		return st.str(x.String())
+		return st.str(durText(x, st.pk))
 	case time.Time:
 		return x.Format(time.RFC3339) // a TOML offset date-time
 	}
@@ -732,14 +796,14 @@ func (st *cueStyle) scalar(v any) string {
 	case bool:
 		return strconv.FormatBool(x)
 	case string:
-		return jq(x)
+		return jqEsc(x, st.pk)
 	case time.Duration:
 		if st.pk("cue_dur_int", 2) == 1 {
 			return strconv.FormatInt(int64(x), 10)
 		}
-		return jq(x.String())
+		return jqEsc(durText(x, st.pk), st.pk)
 	case time.Time:
-		return jq(x.Format(time.RFC3339))
+		return jqEsc(x.Format(time.RFC3339), st.pk)
 	}
 	panic(fmt.Sprintf("cue scalar %T", v))
 }
